@@ -90,6 +90,7 @@ def run(rep, prog, tier):
     rep.rule('C02.4', 'signature-algorithm table and from_signer/__sig__ pairs', floor=8)
     rep.rule('C02.5', 'SignatureV4 writer layout and canonical_bytes', floor=2)
     rep.rule('C02.6', 'length prefixes of signature subpackets cover exactly what follows', floor=2)
+    rep.rule('C02.7', 'text-document canonicalisation on the cleartext signing path (RFC 4880 7.1; the C11.4 family under this property)', floor=4)
     rep.assume('PGPKey.hashdata / PGPUID.hashdata are non-empty; int_to_bytes(x, n) emits max(n, byte_length(x), 1) octets')
 
     sigdata.check_hashdata(rep, prog, 'C02.1')
@@ -101,6 +102,146 @@ def run(rep, prog, tier):
     check_sig_codecs(rep, prog)
     check_sigv4_writer(rep, prog)
     check_lengths(rep, prog)
+    check_packet_copy(rep, prog)
+    check_option_aliasing(rep, prog)
+    check_cleartext_canonicalisation(rep, prog)
+
+
+class _Proxy(object):
+    """Re-labels the rule id of a shared rule family."""
+    def __init__(self, rep, rid):
+        self.rep, self.rid = rep, rid
+
+    def __getattr__(self, k):
+        return getattr(self.rep, k)
+
+    def check(self, cond, rid, *a, **kw):
+        return self.rep.check(cond, self.rid, *a, **kw)
+
+    def violation(self, rid, *a, **kw):
+        return self.rep.violation(self.rid, *a, **kw)
+
+    def ok(self, rid, *a, **kw):
+        return self.rep.ok(self.rid, *a, **kw)
+
+
+# ------------------------------------------------------------------------------------------------ C02.7
+def check_cleartext_canonicalisation(rep, prog):
+    """What is hashed for a cleartext message is the RFC 4880 7.1 canonical text: trailing blanks of EVERY line (the last one
+    included) removed in the signed view, that view used for signing and verifying, CR LF conversion in hashdata.  The rule
+    family is the one C11.4 decides (regex facts via re._parser); a signature made over another text is not a conforming one."""
+    from rules import C11
+    C11.canonicalisation(_Proxy(rep, 'C02.7'), prog, prog.cls('pgpy.pgp', 'PGPMessage'))
+
+
+# ------------------------------------------------------------------------------------------------ C02.5 (copies emit the same packet)
+def check_packet_copy(rep, prog):
+    """A copied signature packet (key.pubkey, copy.copy of a key / user id / message) must emit the same octets: every field the
+    writer emits is carried by __copy__ FROM THE SOURCE object - a field read back from the new object is that object's default
+    (hash2 = 00 00), a field left out is defaulted."""
+    ci = prog.cls('pgpy.packet.packets', 'SignatureV4')
+    cp = ci.methods.get('__copy__')
+    if cp is None:
+        raise AnalysisError('SignatureV4.__copy__ vanished')
+    X = cp.params[0]
+    # emitted field -> attributes that carry it (the sdproperty or the slot behind it)
+    fields = {'header': ('header',), 'sigtype': ('sigtype', '_sigtype'), 'pubalg': ('pubalg', '_pubalg'), 'halg': ('halg', '_halg'),
+              'subpackets': ('subpackets',), 'hash2': ('hash2',), 'signature': ('signature', '_signature')}
+    n = 0
+    for s in Interp(prog, Scenario(inline=noinline)).run(cp):
+        if s.raised is not None:
+            continue
+        n += 1
+        obj = render(s.ret)
+        from rules.C05 import uncopy
+        last = {}
+        for pth, v, l, val in s.stores:
+            if pth.startswith(obj + '.'):
+                last[pth[len(obj) + 1:]] = uncopy(val)[0] if val is not None and uncopy(val)[1] else v
+        for fld, attrs in fields.items():
+            got = [(a, last[a]) for a in attrs if a in last]
+            ok = False
+            for a, v in got:
+                src = re.sub(r'^(?:copy\.copy|copy\.deepcopy|bytearray|bytes)\((.*)\)$', r'\1', v)
+                src = re.sub(r'(\[:\]|\.copy\(\)|\.__copy__\(\))$', '', src)
+                if src in ['%s.%s' % (X, b) for b in attrs]:
+                    ok = True
+            rep.check(ok, 'C02.5', 'SignatureV4.__copy__', '%s <- %s' % (fld, got or 'not carried'),
+                      'a copied signature packet must carry %s from the signature it copies: the copy is written with the new object\'s '
+                      'default instead (e.g. left 16 bits 00 00), so it no longer is the signature that was made' % fld, where=cp.where,
+                      expected='%s.%s = copy of %s.%s' % (obj, attrs[0], X, attrs[0]), found=got or 'not carried', scenario=fld)
+    if not n:
+        raise AnalysisError('SignatureV4.__copy__: no returning path')
+
+
+# ------------------------------------------------------------------------------------------------ C02.2 (nothing hashed changes after hashdata: aliasing)
+MUTABLE_CONTAINERS = ('list', 'dict', 'set')
+
+
+def _caller_object(text, kwname, s):
+    """Is this rendered option value the caller's own object (not a value computed from it)?  The popped option itself, or a
+    variable bound over a collection that is such an object (its items()/values()/keys() included)."""
+    if re.match(r'^%s\.pop\(.*\)$' % re.escape(kwname), text) and text.count('(') == text.count(')'):
+        inner = text[len(kwname) + 5:-1]
+        d = 0
+        for ch in inner:
+            d += ch in '([{'
+            d -= ch in ')]}'
+            if d < 0:
+                return False
+        return True
+    m = re.match(r'^(\$[\d.]+)(?:_\d+)*$', text)
+    if m and m.group(1) in s.bound:
+        coll = re.sub(r'\.(items|values|keys)\(\)$', '', s.bound[m.group(1)])
+        return _caller_object(coll, kwname, s)
+    return False
+
+
+def check_option_aliasing(rep, prog):
+    """A subpacket filed in the hashed area must not keep a reference to a mutable container the caller still owns: editing the
+    caller's list after sign / certify / bind would change the already-signed hashed area (stale lengths, a signature that no
+    longer verifies).  For every addnew option whose value IS the caller's object, the setter overloads for mutable containers
+    must store a copy or a conversion (list(v), set(v), a comprehension, ...), never the parameter itself."""
+    sigmod = prog.module('pgpy.packet.subpackets.signature')
+    fed = {}            # (class name, option) -> where
+    for meth in ('sign', 'certify', 'revoke', 'revoker', 'bind', '_sign'):
+        f = prog.method('pgpy.pgp', 'PGPKey', meth)
+        kwname = f.node.args.kwarg.arg if f.node.args.kwarg is not None else None
+        if kwname is None:
+            continue
+        for s in Interp(prog, Scenario(inline=noinline, join_unknown=True)).run(f):
+            for c in s.calls:
+                if not c[0].endswith('.addnew') or not c[1] or not re.match(r"^'\w+'$", c[1][0]):
+                    continue
+                for k, v in c[2].items():
+                    if k not in ('hashed', '**') and _caller_object(v, kwname, s):
+                        fed.setdefault((c[1][0][1:-1], k), 'PGPKey.%s' % meth)
+    n = 0
+    for (cname, opt), via in sorted(fed.items()):
+        ci = sigmod.classes.get(cname)
+        pp = ci.find_prop(opt) if ci is not None else None
+        if pp is None:
+            continue
+        done = set()
+        for tn, st in sorted(pp.setters.items()):
+            if tn not in MUTABLE_CONTAINERS or (id(st), tn) in done or len(st.params) < 2:
+                continue
+            done.add((id(st), tn))
+            n += 1
+            me = st.params[0]
+            aliased = []
+            for s in Interp(prog, Scenario(args={st.params[1]: Sym('val', types={tn}, nonnull=True)}, inline=noinline)).run(st):
+                if s.raised is not None:
+                    continue
+                for pth, v, l, val in s.stores:
+                    if pth.startswith(me + '.') and isinstance(val, Sym) and val.text == 'val':
+                        aliased.append((pth, l))
+            rep.check(not aliased, 'C02.2', '%s.%s setter (%s)' % (cname, opt, tn), 'caller-owned %s from %s stored %s' % (tn, via, 'by reference' if aliased else 'as a copy'),
+                      'a hashed subpacket keeps a reference to the caller\'s own %s: changing it after the signature was made changes the '
+                      'hashed area that was signed (what is hashed must be final)' % tn, where=st.where,
+                      expected='%s = %s(val)' % (aliased[0][0] if aliased else me + '._x', tn), found=['%s = val' % a for a, _ in aliased], scenario='%s.%s' % (cname, opt))
+    if not n:
+        raise AnalysisError('no addnew option fed with a caller-owned container found: the aliasing rule would pass vacuously')
 
 
 # ------------------------------------------------------------------------------------------------ C02.1c
